@@ -1,3 +1,4 @@
+mod catalog;
 mod checks;
 mod driver;
 mod gen;
@@ -5,6 +6,7 @@ mod hexs;
 mod layout;
 mod rng;
 mod seams;
+mod spec;
 mod suite;
 mod world;
 
@@ -102,6 +104,14 @@ fn replay(rf: &ReplayFile) -> Vec<(String, String)> {
                 .filter(|v| own.is_empty() || own.contains(&v.clause))
                 .map(|v| (v.clause.to_string(), v.detail))
                 .collect()
+        }
+        Case::Decode { suite, kind, codec, bytes, expect, .. } => {
+            let r = match expect.as_str() {
+                "canonical" => checks::c10::replay_decode(suite, *kind, &bytes.0),
+                "reject" => checks::c11::replay_decode(suite, *kind, *codec, &bytes.0),
+                _ => None,
+            };
+            r.map(|d| vec![(rf.clause.clone(), d)]).unwrap_or_default()
         }
         _ => vec![],
     }
